@@ -19,9 +19,16 @@ func (t *c04Trial) startStrace() error {
 	if err != nil {
 		return err
 	}
+	t.straceStop, t.straceDone = make(chan struct{}), make(chan struct{})
 	go func() {
+		defer close(t.straceDone)
 		fails := 0
 		for t.L.Alive() {
+			select {
+			case <-t.straceStop:
+				return
+			default:
+			}
 			c, derr := ctl.DialUnix(t.L.Sock(), time.Second)
 			if derr == nil {
 				c.Close()
@@ -30,11 +37,20 @@ func (t *c04Trial) startStrace() error {
 				fails++
 			}
 			if fails >= 4 {
+				select {
+				case <-t.straceStop:
+					return
+				default:
+				}
 				t.straceKilledDaemon.Store(true)
 				t.L.Kill()
 				return
 			}
-			time.Sleep(150 * time.Millisecond)
+			select {
+			case <-t.straceStop:
+				return
+			case <-time.After(150 * time.Millisecond):
+			}
 		}
 	}()
 	return nil
